@@ -8,7 +8,9 @@
                                                  compareGenesisAccounts, validateGenesisTransfer
     x/rollapp/genesisbridge/ibc_module.go        IBCModule.OnRecvPacket, EnableTransfers
     x/rollapp/genesisbridge/ics4_wrapper.go      ICS4Wrapper.transferAllowed
-    x/rollapp/keeper/authenticate_packet.go      GetRollappByPortChan
+    x/rollapp/keeper/authenticate_packet.go      GetRollappByPortChan (no canonical channel recorded / another one recorded)
+    x/lightclient/keeper/ibc_msg_channel_open_ack.go   HandleMsgChannelOpenAck (ante hook, top-level messages only)
+    x/denommetadata/keeper/keeper.go             CreateDenomMetadata (ErrAlreadyExists)
     x/rollapp/keeper/rollapp.go                  CheckAndUpdateRollappFields, SetRollappAsLaunched, SetIROPlanToRollapp
     x/rollapp/keeper/msg_server_update_rollapp.go   ForceGenesisInfoChange
     x/rollapp/types/message_create_rollapp.go    GetRollapp (zero-supply hotfix) + Rollapp.ValidateBasic (genesis part)
